@@ -13,3 +13,38 @@ package prefix
 //@   assigns nothing
 //@ func (p Prefix) DstPort(seed []byte) uint16
 //@   assigns nothing
+
+// ---------------- C02 (prefix transport) ----------------
+//@ import net "net"
+//@ import bytes "bytes"
+//@ import transports "github.com/refraction-networking/conjure/pkg/transports"
+//@ import pb "github.com/refraction-networking/conjure/proto"
+// the tag obfuscator as the transport uses it (its XOR implementation is under contract in pkg/transports, C15)
+//@ func (o transports.Obfuscator) TryReveal(cipherText []byte, privateKey [32]byte) ([]byte, error)
+//@   assigns nothing
+
+// C02: a revealed tag selects a registration only through the lookup scoped to the connection's phantom address:
+// whatever is returned is the valid registration tracked for THAT phantom under the revealed identifier.
+//@ func (t Transport) getReg(obfuscatedID []byte, rm transports.RegManager, originalDst net.IP) (transports.Registration, error)
+//@   requires rm != nil && t.TagObfuscator != nil
+//@   ensures @C02: result1 == nil ==> (exists s string :: s in validRegs(rm, originalDst) && result0 == validRegs(rm, originalDst)[s])
+//@   ensures @C02: result1 != nil ==> result0 == nil
+//@   assigns nothing
+//@ loop 1:
+//@   invariant 0 <= iter && iter <= len(t.Privkeys) && rm != nil && t.TagObfuscator != nil
+
+// C02/C03: the prefix transport matches a connection only to a valid registration of the connection's own phantom
+// that was registered for the PREFIX transport; on every non-match nothing is consumed from the buffered data.
+//@ func (t Transport) tryFindReg(data *bytes.Buffer, originalDst net.IP, regManager transports.RegManager) (transports.Registration, error)
+//@   requires data != nil && regManager != nil && t.TagObfuscator != nil
+//@   ensures @C02: result1 == nil ==> (exists s string :: s in validRegs(regManager, originalDst) && result0 == validRegs(regManager, originalDst)[s]) && regTransport(result0) == 4
+//@   ensures @C02 @C03: result1 != nil ==> result0 == nil && bufStr(data) == old(bufStr(data))
+//@ loop 1:
+//@   invariant data != nil && regManager != nil && t.TagObfuscator != nil && bufStr(data) == old(bufStr(data)) && err != nil
+//@   modifies bufStr(data), obj(data)
+
+//@ func (t Transport) WrapConnection(data *bytes.Buffer, c net.Conn, originalDst net.IP, regManager transports.RegManager) (transports.Registration, net.Conn, error)
+//@   requires data != nil && regManager != nil && t.TagObfuscator != nil
+//@   ensures @C02: result2 == nil ==> (exists s string :: s in validRegs(regManager, originalDst) && result0 == validRegs(regManager, originalDst)[s]) && regTransport(result0) == 4
+//@   ensures @C02 @C03: result2 != nil ==> result0 == nil && result1 == nil && bufStr(data) == old(bufStr(data))
+//@   ensures @C03: old(len(bufStr(data))) < 32 ==> result2 == transports.ErrTryAgain
